@@ -13,7 +13,7 @@ from harness.world import World, random_world
 ASSUMPTIONS = [
     "renamings: 'clean' (alpha, bravo, ... - no name is a substring of another), 'adv' (a chain a, ab, ab_, ab_c ...: "
     "every name is a string prefix of every later one, so any two siblings are prefix-related) and 'adv2' (a, xa, a_b, "
-    "aa, a1 ...: substrings / suffixes of one another) and 'adv3' (p, a, b, a_b, axb ...: 'p.a.b' next to 'p.a_b', look-alikes when a "
+    "aa, a1 ...: substrings / suffixes of one another), 'case' (a, A, aA ...: names differing only in letter case) and 'adv3' (p, a, b, a_b, axb ...: 'p.a.b' next to 'p.a_b', look-alikes when a "
     "dot is read as a wildcard)",
     "regex and partial-name specifications are excluded (renaming changes what they match); layers are defined by "
     "name lists only",
@@ -23,7 +23,7 @@ ASSUMPTIONS = [
     "conform under adversarial ones)",
 ]
 
-KINDS = ("clean", "adv", "adv2", "adv3")
+KINDS = ("clean", "adv", "adv2", "adv3", "case")
 
 
 def rule_episode(world, rules, extra=None):
@@ -87,7 +87,7 @@ def scan_pair_specs(ctx, rng):
     for _ in range(60 if ctx.quick else 1200):
         p = projgen.random_project(rng, max_depth=rng.choice([2, 3, 4]), n_stmts=rng.randint(6, 30), rel_abs=True)
         variants = []
-        for mk in (names.rho_clean, names.rho_adversarial, names.rho_adversarial2):
+        for mk in (names.rho_clean, names.rho_adversarial, names.rho_adversarial2, names.rho_case):
             rn = mk()
             q = rename_project(p, rn)
             ep = sc.ScanEpisode(q)
@@ -177,18 +177,19 @@ def run(ctx):
         else:
             fails.append(f)
     scan_diffs = 0
+    NV = 4      # namings per abstract project
     for t in range(len(triples)):
-        sets = [by_ep.get(3 * t + k, set()) for k in range(3)]
-        if sets[1] != sets[0] or sets[2] != sets[0]:
+        sets = [by_ep.get(NV * t + k, set()) for k in range(NV)]
+        if any(x != sets[0] for x in sets[1:]):
             scan_diffs += 1
-            k = 1 if sets[1] != sets[0] else 2
+            k = next(i for i in range(1, NV) if sets[i] != sets[0])
             fails.append({"prop": "C14", "clause": "scan-conformance-changes-under-renaming",
                           "detail": {"clean": sorted(sets[0]), "adversarial": sorted(sets[k])},
-                          "event": {"renaming": ["clean", "adv", "adv2"][k]}, "spec": flat[3 * t + k],
-                          "episode_events": seps[3 * t + k]})
-    outs["Trace_Scan"] = {"episodes": len(seps), "rename_law_instances": len(triples) * 2, "failing_or_labelled": 1,
+                          "event": {"renaming": ["clean", "adv", "adv2", "case"][k]}, "spec": flat[NV * t + k],
+                          "episode_events": seps[NV * t + k]})
+    outs["Trace_Scan"] = {"episodes": len(seps), "rename_law_instances": len(triples) * 3, "failing_or_labelled": 1,
                           "differences": scan_diffs}
-    laws += len(triples) * 2
+    laws += len(triples) * 3
     if not all(v["rename_law_instances"] and v["failing_or_labelled"] for v in outs.values()):
         raise tlc.MachineryError(f"vacuous run: {outs}")
     cov = {"states": mc.distinct + tr_states, "transitions": mc.generated + tr_trans,
